@@ -159,6 +159,28 @@ def run_verus(path, rlimit=None, extra=None, timeout=1500):
             'stderr': p.stderr}
 
 
+MAX_SHARDS = int(os.environ.get('VX_SHARDS', '12'))
+
+
+def load_weights():
+    p = os.path.join(CONTRACTS, 'weights.json')
+    if os.path.exists(p):
+        try:
+            return load_json(p)
+        except Exception:
+            return {}
+    return {}
+
+
+def raise_undecided_frontend(r):
+    fe = []
+    for d in r['diags']:
+        cls, kind = classify_diag(d)
+        if cls == 'frontend':
+            fe.append(d.get('rendered', kind))
+    raise Undecided('verus front end rejected the woven file (rc=%s): %s' % (r['rc'], (fe[0] if fe else r['stderr'][-1500:])))
+
+
 PROOF_FAIL_KINDS = [
     ('postcondition not satisfied', 'postcondition'),
     ('precondition not satisfied', 'precondition'),
@@ -251,6 +273,34 @@ class UnitRun:
         self.path = os.path.join(WORK, self.pid, os.path.splitext(self.unit)[0] + '.rs')
         with open(self.path, 'w') as f:
             f.write(text)
+        # ---- shards: the same file, each with a different subset of the closure left to verify
+        # (the others become external_body = contract only).  Line numbers are identical in all
+        # shards because the marker is inserted on the same line.
+        todo = [f for f in self.closure if f['mode'] != 'spec']
+        nshards = max(1, min(MAX_SHARDS, len(todo) // 6))
+        weights = load_weights()
+        todo.sort(key=lambda f: -weights.get(fn_key(f), len(f['text']) / 400.0))
+        bins = [[] for _ in range(nshards)]
+        load = [0.0] * nshards
+        for f in todo:
+            i = load.index(min(load))
+            bins[i].append(f)
+            load[i] += weights.get(fn_key(f), len(f['text']) / 400.0) + 0.3
+        self.shards = []
+        for i, b in enumerate(bins):
+            if not b:
+                continue
+            if nshards == 1:
+                self.shards.append(self.path)
+                continue
+            keep = set((fn_key(f), f['mode']) for f in b)
+            spec_fns = [f for f in self.fns if f['mode'] == 'spec']
+            kept = [f for f in self.fns if (fn_key(f), f['mode']) in keep and f['mode'] != 'spec']
+            t = mark_external(self.text, self.fns, kept + spec_fns)
+            sp = os.path.join(WORK, self.pid, '%s_s%d.rs' % (os.path.splitext(self.unit)[0], i))
+            with open(sp, 'w') as f:
+                f.write(t)
+            self.shards.append(sp)
 
     def fn_at_line(self, line):
         best = None
@@ -261,7 +311,29 @@ class UnitRun:
         return best
 
     def verify(self, rlimit=None):
-        res = run_verus(self.path, rlimit=rlimit)
+        import concurrent.futures
+        with concurrent.futures.ThreadPoolExecutor(max_workers=len(self.shards)) as pool:
+            results = list(pool.map(lambda sp: run_verus(sp, rlimit=rlimit), self.shards))
+        res = {'cmd': ' ; '.join(r['cmd'] for r in results), 'rc': max(r['rc'] for r in results),
+               'stats': None, 'diags': [], 'wall': max(r['wall'] for r in results), 'stderr': ''}
+        seen_d = set()
+        for r in results:
+            if r['stats'] is None:
+                raise_undecided_frontend(r)
+            for d in r['diags']:
+                key = (d.get('message'), json.dumps(d.get('spans', []), sort_keys=True)[:600])
+                if key in seen_d:
+                    continue
+                seen_d.add(key)
+                res['diags'].append(d)
+        # merge statistics
+        merged = {'times-ms': {'smt': {'smt-run-module-times': []}}}
+        for r in results:
+            try:
+                merged['times-ms']['smt']['smt-run-module-times'].extend(r['stats']['times-ms']['smt']['smt-run-module-times'])
+            except (KeyError, TypeError):
+                pass
+        res['stats'] = merged
         self.result = res
         lines = self.text.split('\n')
         self.failures = []
